@@ -166,7 +166,7 @@ func cmdCheck(args []string) {
 	defer os.RemoveAll(replayDir)
 	inconclusive := 0
 	for _, hs := range ts.Harnesses {
-		if onlyRe != nil && !onlyRe.MatchString(hs.Name) {
+		if onlyRe != nil && !onlyRe.MatchString(hs.Name+"/"+hs.Label) {
 			continue
 		}
 		fn := lp.harnesses[hs.Name]
